@@ -38,6 +38,9 @@ type Zlisp struct {
 	before      []PreHook
 	after       []PostHook
 
+	// nesting of the Compare call in progress
+	compareDepth int
+
 	debugExec           bool
 	debugSymbolNotFound bool
 
@@ -672,6 +675,12 @@ func (env *Zlisp) CallUserFunction(
 
 func (env *Zlisp) LoadExpressions(xs []Sexp) error {
 
+	// data handed over as code ((eval x), a macro's result) can contain itself
+	for _, x := range xs {
+		if selfContaining(x) {
+			return fmt.Errorf("cannot compile an expression: %v", errSelfContaining)
+		}
+	}
 	expressions := xs
 	if env.WrapLoadExpressionsInInfix {
 		infixSym := env.MakeSymbol("infix")
